@@ -9,12 +9,12 @@ Proved for all inputs:
 * the codecs the XML mapping is built from — base64, time stamps, UUIDs, booleans, decimal numbers;
 * the struct-level XML mapping (writer events → xml-rs contract → reader) for `Value` (plain and protected, with the
   key-stream cursor), `Times`, `CustomData`, `AutoType` and whole entries with their nested histories
-  (`C03_entry_roundtrip_partial`): for every entry of the stated domain, every key stream, every iteration order of
+  (`C03_entry_roundtrip_partial`, tags included): for every entry of the stated domain, every key stream, every iteration order of
   every map and every position of the cursor, what the writer emits is read back as an entry with the same fields
   (maps compared as maps), the writer and the reader leaving the cursor at the same place.
 * and on top of these the group tree, `Meta` and the whole document (`C03_xml_roundtrip_partial : C03_xml_full ContentOk`).
-Not proved: entries with tags or colours, the database colour, byte-string values and blank strings (outside the domain
-`ContentOk`); those are validated on every generated database by the correspondence op `xml` — a test, labelled so.
+Outside the domain `ContentOk` (the writer does not write them back readably, C12's classes): byte-string values, blank
+strings and empty field values, reserved time-stamp names, empty icon or attachment payloads; those are validated on every generated database by the correspondence op `xml` — a test, labelled so.
 What ties the XML stage to bytes (xml-rs tokenizer and emitter) is the contract `view`, validated by the same op.
 -/
 namespace Kp.Codec
@@ -89,7 +89,7 @@ theorem C03_autoType_roundtrip (a : AutoType) (ha : AutoTypeOk a) (stk : List St
     ∃ evs, Dumps (dumpAutoType a) stk off ords () evs stk off ords ∧ Reads parseAutoType evs off a off :=
   ⟨_, dumps_autoType a stk off ords ha, reads_autoType a off ha⟩
 
-/-- **entries** (partial: no tags, no colours): every entry of the domain `EntryOk`, with its nested histories to any
+/-- **entries**: every entry of the domain `EntryOk`, with its nested histories to any
     depth, written at any cursor position with any iteration orders of its maps, is read back as an equivalent entry
     (`EntryEq`: equal field by field, maps compared as maps, histories entry by entry in order), the reader's cursor
     ending where the writer's did.  `fd`, `fp` are the recursion budgets of writer and reader models. -/
@@ -102,10 +102,9 @@ theorem C03_entry_roundtrip_partial (denv : DEnv) (penv : Env) (u : Bytes → Op
     entry_rt denv u penv hks henv (entryDepth e) e (Nat.le_refl _) he fd hfd stk off ords
   exact ⟨evs, off', ords', e', h1, h2 fp hfp, h3⟩
 
-/-- **the whole document** (partial: the domain `ContentOk` leaves out entry tags, colours, byte-string values and blank
-    strings; everything else of the schema is in it — meta data with memory protection, custom icons, the binary pool
+/-- **the whole document** (the domain `ContentOk` leaves out byte-string values, blank strings and the other classes of C12; everything else of the schema is in it — meta data with memory protection, custom icons, the binary pool
     (compressed or not) and custom data; the group tree to any depth with all group settings; entries with plain and
-    protected fields, auto-type settings, custom data and nested histories; deleted objects):
+    protected fields, tags, colours, auto-type settings, custom data and nested histories; deleted objects):
     `save`'s XML stage followed by `open`'s XML stage is the identity, for every key stream and every map order. -/
 theorem C03_xml_roundtrip_partial : C03_xml_full ContentOk := by
   intro c ks gz gunz u orders now fresh hc hks hgz
@@ -153,13 +152,13 @@ theorem C03_meta_roundtrip_partial (denv : DEnv) (penv : Env) (u : Bytes → Opt
   exact ⟨evs, off', h1, h2, lookup_insertAll_ordered ords m.customData hok.customDataNodup⟩
 
 def exEntry : Entry :=
-  .mk (List.replicate 16 7) [("Title", .unprotected "mail"), ("Password", .prot [1, 2, 3])] none []
-    ⟨false, 3, [("CreationTime", 0)]⟩ [] (some 4) none none none none (some true)
+  .mk (List.replicate 16 7) [("Title", .unprotected "mail"), ("Password", .prot [1, 2, 3])] none ["work", "mail"]
+    ⟨false, 3, [("CreationTime", 0)]⟩ [] (some 4) none (some ⟨255, 0, 16⟩) none none (some true)
     (some [.mk (List.replicate 16 7) [("Title", .unprotected "old")] none [] ⟨false, 0, []⟩ [] none none none none none none none])
 
 def exContent : Content :=
   { metaData := { generator := some "KeePass", memoryProtection := some {}, customIcons := [(List.replicate 16 1, [1, 2])],
-                  binaries := [⟨some "0", true, [9]⟩], historyMaxItems := some 10, masterKeyChangeRec := some (-1) },
+                  binaries := [⟨some "0", true, [9]⟩], historyMaxItems := some 10, masterKeyChangeRec := some (-1), color := some ⟨1, 2, 3⟩ },
     root := .group (List.replicate 16 2) "Root" none (some 48) none
       [.entry exEntry, .group (List.replicate 16 3) "" (some "notes") none none [] {} [] false none none none none]
       ⟨false, 0, [("LastModificationTime", 5)]⟩ [] true none none none none,
@@ -168,8 +167,8 @@ def exContent : Content :=
 /-- the entry domain is inhabited: a plain and a protected field, a time-stamp map, a history holding an older version -/
 theorem C03_entry_domain_inhabited : EntryOk exEntry := by
   unfold exEntry
-  refine EntryOk.mk _ _ _ _ _ _ _ _ _ _ (by decide) ?_ (by unfold KeysNodup; decide) (by intro x h; cases h) ?_ (by unfold KeysNodup; decide) (by intro p h; cases h) (by unfold KeysNodup; decide)
-    (by intro n h; cases h; decide) (by intro b h; cases h) (by intro s h; cases h) ?_
+  refine EntryOk.mk _ _ _ _ _ _ _ _ _ _ _ _ _ (by decide) (Or.inr ⟨⟨by decide, by decide⟩, by decide⟩) ?_ (by unfold KeysNodup; decide) (by intro x h; cases h) ?_ (by unfold KeysNodup; decide) (by intro p h; cases h) (by unfold KeysNodup; decide)
+    (by intro n h; cases h; decide) (by intro b h; cases h) (by intro c h; cases h; exact ⟨by decide, by decide, by decide⟩) (by intro c h; cases h) (by intro s h; cases h) ?_
   · intro p hp
     simp only [List.mem_cons, List.not_mem_nil, or_false] at hp
     rcases hp with rfl | rfl
@@ -181,8 +180,8 @@ theorem C03_entry_domain_inhabited : EntryOk exEntry := by
     subst hp
     exact ⟨by decide, by decide, by decide, by decide, by decide⟩
   · refine HistOk.some _ (EntriesOk.cons _ _ ?_ EntriesOk.nil)
-    refine EntryOk.mk _ _ _ _ _ _ _ _ _ _ (by decide) ?_ (by unfold KeysNodup; decide) (by intro x h; cases h) ⟨by decide, by intro p h; cases h⟩ (by unfold KeysNodup; decide)
-      (by intro p h; cases h) (by unfold KeysNodup; decide) (by intro n h; cases h) (by intro b h; cases h) (by intro s h; cases h) HistOk.none
+    refine EntryOk.mk _ _ _ _ _ _ _ _ _ _ _ _ _ (by decide) (Or.inl rfl) ?_ (by unfold KeysNodup; decide) (by intro x h; cases h) ⟨by decide, by intro p h; cases h⟩ (by unfold KeysNodup; decide)
+      (by intro p h; cases h) (by unfold KeysNodup; decide) (by intro n h; cases h) (by intro b h; cases h) (by intro c h; cases h) (by intro c h; cases h) (by intro s h; cases h) HistOk.none
     intro p hp
     simp only [List.mem_cons, List.not_mem_nil, or_false] at hp
     subst hp
@@ -195,7 +194,7 @@ theorem C03_domain_inhabited (gz : Bytes → Bytes) (hgz : ∀ m, gz m ≠ []) :
   · refine { generator := ?_, databaseName := (by intro s h; cases h), databaseNameChanged := (by intro s h; cases h),
              databaseDescription := (by intro s h; cases h), databaseDescriptionChanged := (by intro s h; cases h),
              defaultUsername := (by intro s h; cases h), defaultUsernameChanged := (by intro s h; cases h),
-             maintenanceHistoryDays := (by intro s h; cases h), color := rfl, masterKeyChanged := (by intro s h; cases h),
+             maintenanceHistoryDays := (by intro s h; cases h), color := ?_, masterKeyChanged := (by intro s h; cases h),
              masterKeyChangeRec := ?_, masterKeyChangeForce := (by intro s h; cases h),
              customIcons := ?_, recyclebinUuid := (by intro s h; cases h),
              recyclebinChanged := (by intro s h; cases h), entryTemplatesGroup := (by intro s h; cases h),
@@ -204,6 +203,7 @@ theorem C03_domain_inhabited (gz : Bytes → Bytes) (hgz : ∀ m, gz m ≠ []) :
              settingsChanged := (by intro s h; cases h), binaries := ?_, customData := (by intro p h; cases h),
              customDataNodup := by unfold KeysNodup; decide }
     · intro s h; cases h; exact ⟨by decide, by decide⟩
+    · intro c h; cases h; exact ⟨by decide, by decide, by decide⟩
     · intro i h; cases h; exact ⟨by decide, by decide⟩
     · intro p hp
       simp only [exContent, List.mem_cons, List.not_mem_nil, or_false] at hp
